@@ -84,7 +84,7 @@ def run_case(ctx, n):
   script = cg.gen_script(rng, spec, rng.randint(1, 40))
   name = rng.choice(NAMES)
   t1, recs1 = make_trace(spec, start, script, name, datetime.datetime(2024, 1, 1), datetime.timedelta(microseconds=rng.choice([0, 1, 999999])))
-  t2, recs2 = make_trace(spec, start, script, name, datetime.datetime(rng.choice([1970, 1999, 2038, 9999]), rng.randint(1, 12), rng.randint(1, 28), rng.randint(0, 23)), datetime.timedelta(seconds=rng.choice([0, 1, 3600.5])))
+  t2, recs2 = make_trace(spec, start, script, name, datetime.datetime(rng.choice([1970, 1999, 2038, 9000]), rng.randint(1, 12), rng.randint(1, 28), rng.randint(0, 23)), datetime.timedelta(seconds=rng.choice([0, 1, 3600.5])))
   ctx.count('traces', 2)
   wit = {'spec': spec, 'start': start, 'script': script, 'name': name, 'trace1': t1, 'trace2': t2}
   if recs1 != recs2:
